@@ -98,6 +98,7 @@ struct H : DataArrayHost
 
 extern "C" T* w_op(T* data, int* thesize, int* themax, double memFactor, int op, int a, int b, T t)
 {
+   VIN("thesize", *thesize); VIN("themax", *themax); VIN("op", op); VIN("a", a); VIN("b", b);
 #ifdef INST_insertVal
    H s; MK(s); s.i = a; s.n = b; s.t_ = t; g_t = t; gpp_data = &s.data;
    s.body();
